@@ -82,6 +82,10 @@ def clientIP (r : Req) : Bytes :=
     the limit the walk uses — zero or less means the default, 1 (Tie: `compile_follows_the_source`) -/
 def compileMaxHops (configured : Int) : Nat := if configured ≤ 0 then 1 else configured.toNat
 
+/-- `compileProxies`: with no header configured the defaults are consulted (X-Forwarded-For, then X-Real-IP; Tie:
+    `default_headers_are_xff_then_realip`) -/
+def compileHeaders {α} (configured defaults : List α) : List α := if configured.isEmpty then defaults else configured
+
 /-! ## `Context.IsLocalhost` (router/request.go): a function of `ClientIP()` alone -/
 
 def localhostExact : List Bytes :=
